@@ -8,6 +8,10 @@ TB = ('Trusted: Coq 8.16.1 kernel and vm_compute (no native_compute, no axioms: 
       '(probe.c + genfacts.py: compiler layouts, #defines, automata tables dumped by executing the constructors) and (b) differential execution of the '
       'extracted model (ExtrOcamlBasic only) against the C core under ASan/UBSan on generated scenarios; virtual clock; logging not modelled. ')
 CHECKS = {
+ 'C11': dict(text='Theorem for every byte buffer, every received length inside it, every session table and own address: the model of derive_session_event never reads outside the buffer and returns exactly the byte-level specification (list slicing over the MS-LLTD wire layout) of the received part; corollaries state acknowledging / not acknowledging for any position of the own address, the changed-transaction variants, Reset/Hello and no event for every other opcode. Station stride and offsets are regenerated facts.',
+             note=TB + 'A Discover with an empty station list is left open by the property (the code treats it as acknowledging).', tech='Rocq proof (induction over the station list, slicing lemmas) + regenerated layout + differential run vs C and vs extracted spec', ref='6 (C11)'),
+ 'C16': dict(text='Refinement to a dictionary keyed by (mapper, generation): invariant (16 slots, no duplicate live key, count = number of live sessions, all_complete = function of the live sessions) proved for every table reachable by any operation sequence (induction over fold_left), plus per-operation characterisations on the abstract view for add (refresh / insert / refuse-when-full leaves the table untouched), find, remove, clear, completion update and the 60 s expiry sweep.',
+             note=TB + 'The executable dictionary used as run-time oracle (spec/SpecExec.v) mirrors the proved per-operation statements; its own Permutation-refinement theorem is not proved.', tech='Rocq proof (invariant by induction over operations, list surgery lemmas) + differential run vs C and vs extracted dictionary', ref='6 (C16)'),
  'C13': dict(text='Theorems over the model of band_update_stats/band_choose_hello_time with the C integer widths written out: for every r < 2^32 the new count equals min(NMAX, ALPHA*r^BETA) over unbounded numbers, range [ALPHA,NMAX] is invariant under every band operation, count and interval are monotone, the interval obeys the load formula. Constants are regenerated facts proved equal to the documented ones.',
              note=TB + 'Thorough tier sweeps all 2^32 values of r through the real band_update_stats.', tech='Rocq proof (N arithmetic, lia/nia) + regenerated constants + differential run vs C', ref='6 (C13)'),
  'C14': dict(text='Theorem for every state, EVERY integer input and every elapsed time: the regenerated mapping table walked by the modelled switch_state_mapping (last row wins, time-out pre-emption, second pass) equals the specification written from the property text; finite part by vm_compute over the table, all other inputs by a lookup lemma; time-out bounds; tick-driven 30 s inactivity theorem.',
